@@ -171,6 +171,11 @@ class MetaMolecule(nx.Graph):
         # we need to do some bookkeeping for the resids
         for idx, node in enumerate(new_meta_graph.nodes):
             new_meta_graph.nodes[node]["resid"] = idx
+            # residues that are not relabeled lose their attributes when the
+            # residue graph is regenerated; like all residues of a new
+            # meta-molecule they are to be built and backmapped
+            new_meta_graph.nodes[node].setdefault("build", True)
+            new_meta_graph.nodes[node].setdefault("backmap", True)
             for atom in new_meta_graph.nodes[node]["graph"]:
                 self.molecule.nodes[atom]["resid"] = idx
 
